@@ -159,6 +159,13 @@ BODIES = {
     "rawbytes2": [("PASV", ""), (C, ""), {"k": "cmd", "verb": "STOR", "arg": "\u00fcber.txt", "raw": True, "payload": "x"}, ("MKD", "after")],
     "abs": [("MKD", "/{d}/e/abs"), ("RNFR", "/{d}/e/abs"), ("RNTO", "/{d}/sub/y/abs2"), ("CWD", "/{d}/sub/y/abs2"), ("PWD", ""), ("CDUP", ""), ("RMD", "abs2"), ("DELE", "/{d}/sub/x")],
 }
+# disjoint LEAVES under a common ancestor that does not exist yet (/inbox): used by the family "shared-missing-ancestor" only
+DEEP_BODIES = {
+    "deepmkd": [("MKD", "/inbox/{d}/x"), ("CWD", "/inbox/{d}"), ("PWD", ""), ("MKD", "y/z"), ("PASV", ""), (C, ""), ("STOR", "x/f", b"deep-{d}"), (C, ""),
+                ("MLSD", "/inbox/{d}"), ("RMD", "y/z"), (C, ""), ("RETR", "x/f")],
+    "deepmkd2": [("MKD", "inbox/{d}"), ("MKD", "inbox/{d}/q/r"), ("RNFR", "inbox/{d}/q"), ("RNTO", "inbox/{d}/q2"), ("MLST", "inbox/{d}/q2/r"), ("MKD", "/outbox/deep/{d}/k")],
+    "deepmkd3": [("MKD", "/inbox/new/{d}"), ("CWD", "/inbox/new/{d}"), ("MKD", "m"), ("PWD", "")],
+}
 # bodies that make sense before "CWD /{d}" (absolute paths only)
 ABS_BODIES = ("abs",)
 TRANSFER_BODIES = ("store", "rest", "rest2", "type", "append", "nodata", "abor")
@@ -177,7 +184,7 @@ def make_script(login, body, d, home=False):
     ev = list(LOGIN[login])
     if not (home or body in ABS_BODIES):
         ev.append(("CWD", "/" + d))
-    ev += BODIES[body]
+    ev += BODIES[body] if body in BODIES else DEEP_BODIES[body]
     out = []
     for e in ev:
         if isinstance(e, dict):
@@ -841,6 +848,33 @@ def tree_diff(a, b, pre=""):
     return []
 
 
+class OutsideDisjoint(Exception):
+    pass
+
+
+_MISSING = object()
+
+
+def merge_trees(base, solos, pre=""):
+    """what several solo runs leave behind, taken together: a path changed by one run takes that run's value; a directory
+    changed / created by several runs is merged child by child; any other double change is not 'disjoint paths'"""
+    changed = [t for t in solos if t is not _MISSING and t != base or (t is _MISSING and base is not _MISSING)]
+    if not changed:
+        return base
+    if all(isinstance(t, dict) for t in changed) and (base is _MISSING or isinstance(base, dict)):
+        out = {}
+        b = {} if base is _MISSING else base
+        for k in sorted(set(b) | {k for t in changed for k in t}):
+            v = merge_trees(b.get(k, _MISSING), [(t.get(k, _MISSING) if isinstance(t, dict) else _MISSING) for t in solos if t is not _MISSING and isinstance(t, dict)], pre + "/" + k)
+            if v is not _MISSING:
+                out[k] = v
+        return out
+    first = changed[0]
+    if all((t is first) or (t is not _MISSING and first is not _MISSING and t == first) for t in changed):
+        return first
+    raise OutsideDisjoint(f"{pre or '/'} is changed by more than one solo run")
+
+
 def project(schedule, i):
     return [(0, a) for j, a in schedule if j == i]
 
@@ -917,11 +951,12 @@ def oracle(n, dirs, schedule, cfg, res, solos):
             bad.append(("c17-ended-differs-from-solo", f"session {i}: ended {me['ended']} solo {so['ended']}", {"session": i}))
         mine = [(op, w) for j, op, w in res["log"] if j == i]
         theirs = [(op, w) for j, op, w in solos[i]["log"]]
-        if mine != theirs and not bad:
+        if mine != theirs and not bad and not cfg.get("merge"):
+            # (with shared missing ancestors which backend calls a MKD makes may depend on who created the ancestor first)
             k = next((j for j, (x, y) in enumerate(zip(mine, theirs)) if x != y), min(len(mine), len(theirs)))
             bad.append(("c17-backend-calls-differ-from-solo", f"session {i}: backend call #{k} interleaved {mine[k:k+2]} solo {theirs[k:k+2]}", {"session": i}))
     # O5 footprint
-    for j, op, w in res["log"]:
+    for j, op, w in (res["log"] if not cfg.get("merge") else ()):
         if j is None:
             bad.append(("c17-backend-call-without-session", f"{op} {w}", {}))
             break
@@ -929,8 +964,18 @@ def oracle(n, dirs, schedule, cfg, res, solos):
             bad.append(("c17-backend-footprint-outside-own-directory", f"session {j} (directory /{dirs[j]}): {op} {w}", {"session": j}))
             break
     # O2 tree
+    if cfg.get("merge"):
+        # disjoint LEAVES under shared ancestors that do not exist yet: the union of the solo effects is the merge of the
+        # solo trees (a directory created by several sessions is created once; anything else changed by two sessions is
+        # outside "disjoint paths")
+        try:
+            want_m = merge_trees(canon_initial, [so["tree"] for so in solos])
+        except OutsideDisjoint as e:
+            return [("outside-hypothesis", str(e), {})]
+        if res["tree"] != want_m and not bad:
+            bad.append(("c17-tree-not-union-of-solo-effects", f"(interleaved vs merge of the solo trees) {tree_diff(res['tree'], want_m)[:6]}", {}))
     want = dict(canon_initial)
-    for i in range(n):
+    for i in (range(n) if not cfg.get("merge") else ()):
         st = solos[i]["tree"]
         for name in canon_initial:
             if name != dirs[i] and st.get(name) != canon_initial[name]:
@@ -938,7 +983,7 @@ def oracle(n, dirs, schedule, cfg, res, solos):
         if set(st) != set(canon_initial):
             return [("outside-hypothesis", f"solo run of session {i} changes the root", {})]
         want[dirs[i]] = st[dirs[i]]
-    if res["tree"] != ftpsim.canon_tree(want):
+    if not cfg.get("merge") and res["tree"] != ftpsim.canon_tree(want):
         bad.append(("c17-tree-not-union-of-solo-effects", f"(interleaved vs union of solo effects) {tree_diff(res['tree'], ftpsim.canon_tree(want))[:6]}", {}))
     # O3 locality, O4 ownership
     unsettled = [False] * n  # a command line is on the wire and its session has not collected the outcome yet
@@ -1382,6 +1427,35 @@ def gen_jobs(rng, thorough, budget=None):
             scheds.append(burstify(merge_alternate([sa, sb])))
             for s in scheds:
                 jobs.append(("raw-bytes-vs-unicode-names", 2, [da, db], [sa, sb], s, {"backend": rng.choice(["memory", "memory", "path"])}))
+    # (8) disjoint LEAVES under a common ancestor that does not exist yet (MKD /inbox/a/x next to MKD /inbox/b/x): outside the
+    # hypothesis of C17_isolation (no pre-existing own directory), inside "disjoint paths": mkdir -p of disjoint leaves succeeds for
+    # everybody, alone and together.  Command granularity, simultaneous commands, and every backend call of the MKD gated
+    # (both sessions suspended between their calls, completed in either order); gated memory, PathIO, AsyncPathIO (threads)
+    deep_gates = [("exists", 1), ("exists", 2), ("exists", 3), ("mkdir", 1), ("mkdir", 2), ("mkdir", 3)]
+    for w in range(240 if thorough else (60 if budget else 40)):
+        nn = 3 if rng.random() < 0.2 else 2
+        ds = rng.sample(DIRS, nn)
+        ls = [rng.choice(["u", "v", "n", "anon"])] * nn if rng.random() < 0.5 else [rng.choice(["u", "v", "n", "anon"]) for _ in range(nn)]
+        bs = [rng.choice(list(DEEP_BODIES))] * nn if rng.random() < 0.6 else [rng.choice(list(DEEP_BODIES)) for _ in range(nn)]
+        scripts = [make_script(l, b, d, home=True) for l, b, d in zip(ls, bs, ds)]
+        cfg = {"backend": rng.choice(["memory", "memory", "path", "async"]), "merge": True}
+        kind = w % 4
+        if kind == 0:
+            s = merge_random(rng, scripts) if rng.random() < 0.6 else merge_alternate(scripts)
+        elif kind == 1:
+            s = burstify(merge_alternate(scripts)) if rng.random() < 0.6 else burstify(merge_random(rng, scripts))
+        else:
+            sa, sb = scripts[0], scripts[1]
+            ea = len(LOGIN[ls[0]]) + (1 if (bs[0] == "deepmkd2" and rng.random() < 0.5) else 0)
+            eb = len(LOGIN[ls[1]])
+            nested = (eb, ["gate", list(rng.choice(deep_gates))]) if kind == 3 else None
+            mode = ("gate", list(rng.choice(deep_gates)))
+            j0 = rng.choice([0, eb])
+            s = window_schedule(sa, ea, mode, sb, j0, len(sb) if nested is None else eb + 1, rng=None,
+                                nested=(nested[0], (nested[1][0], nested[1][1])) if nested else None, order=rng.randrange(2))
+            if nn == 3:
+                s += [(2, a) for a in scripts[2]]
+        jobs.append(("shared-missing-ancestor", nn, ds, [project_atoms(s, i) for i in range(nn)], s, cfg))
     # the victim itself is torn down half-way (its partial effects stay its own)
     for _ in range(300 if thorough else 24):
         ba, la, e, mode = rng.choice(wins)
@@ -1611,11 +1685,17 @@ def check_case(ctx, fam, n, dirs, schedule, cfg, mo=None, verbose=False):
         return clean
     hyp, trace, solo_m = mo
     # M0 hypotheses
-    if not (all(hyp[0]) and hyp[1] and hyp[2]):
+    if cfg.get("merge"):
+        # deliberately OUTSIDE the hypothesis of C17_isolation (no pre-existing directory of its own contains the session's
+        # footprint: the only existing common ancestor is the root); the model's solo runs and its serialised tree are still
+        # predictions of the model, the theorem just does not say they must agree
+        ctx.count("outside_theorem_hypothesis:shared_missing_ancestor")
+    elif not (all(hyp[0]) and hyp[1] and hyp[2]):
         ctx.count("model_outside_hypothesis")
         ctx.notes.append(f"schedule outside the model's hypothesis (generator): {fam} {dirs} {[verbs_of(s) for s in scripts]}"[:300])
         return clean
-    ctx.count("hypothesis_holds")
+    if not cfg.get("merge"):
+        ctx.count("hypothesis_holds")
     ev = model_events(schedule)
     skip = [self_interrupting(schedule, i) for i in range(n)]
     mem_skip = False
@@ -1696,7 +1776,9 @@ def correspondence(ctx, budget=None):
         "reply instant on the virtual clock is compared with a time-aligned solo run; (5) two listings at once (one suspended mid-listing); "
         "(6) a command line of raw non-UTF-8 bytes in one session at every point of another session's work with non-ASCII names. Every run "
         "of a schedule is under a wall-clock watchdog, the whole stream in a supervised child process: a frozen event loop is reported as "
-        "a violation with the schedule. Non-trivial = distinct (schedule, configuration)."
+        "a violation with the schedule; (7) disjoint leaves under a common ancestor that does not exist yet (MKD of 2-3 missing levels by "
+        "each session, every backend call of the MKD gated, both sessions suspended at once): outside the theorem's hypothesis, oracle = "
+        "replies as solo and final tree = merge of the solo trees. Non-trivial = distinct (schedule, configuration)."
     )
     jobs = gen_jobs(rng, thorough, budget)
     ctx.extra.setdefault("dynamic_writes", {})
